@@ -125,13 +125,22 @@ class Instrument:
         self.saved = []
 
 
-class FailingNetwork:
+class FakeNetwork:
+    """the wallet server as far as broadcast_or_release is concerned: accepts, rejects with an exception, or never
+    answers (the pending call is then cancelled by the caller)"""
     is_connected = True
 
-    def broadcast(self, raw):
-        async def f():
+    def __init__(self, behaviour):
+        self.behaviour = behaviour        # build -> 'accept' | 'reject' | 'hang'
+
+    async def broadcast(self, raw):
+        mode = self.behaviour.get(cur_build.get(), 'accept')
+        await asyncio.sleep(0)
+        if mode == 'reject':
             raise ConnectionError('broadcast refused')
-        return f()
+        if mode == 'hang':
+            await asyncio.Event().wait()
+        return 'accepted'
 
 
 async def run_concurrent(world, case):
@@ -141,6 +150,10 @@ async def run_concurrent(world, case):
     ledger.coin_selection_strategy = case['strategy']
     funding = [world.accounts[i] for i in case['funding']]
     change_acc = world.accounts[case['change']]
+
+    def funding_of(d):
+        # builds may list the same accounts in a different order
+        return [world.accounts[i] for i in d.get('funding', case['funding'])]
     rows_before = await world.rows(funding)
     rid_of = {r['txoid']: r['rid'] for r in await world.sql("SELECT rowid AS rid, txoid FROM txo")}
     c03.RecordingRandom.log = []
@@ -156,6 +169,8 @@ async def run_concurrent(world, case):
         cur_build.set(b)
         for _ in range(d.get('delay', 0)):
             await asyncio.sleep(0)
+        while d.get('after_sync') is not None and d['after_sync'] not in synced:
+            await asyncio.sleep(0.001)
         pre, pre_desc = c03.make_pre(world, d, made, rid_of)
         outs = c03.make_outputs(d['outs'])
         res = {'pre_desc': pre_desc, 'outs': outs}
@@ -163,7 +178,7 @@ async def run_concurrent(world, case):
         signing = bool(d.get('sign'))
         fault = signing and (bool(case.get('locked')) or c03.GHOST in case['funding'])
         try:
-            tx = await Transaction.create(pre, outs, funding, change_acc, sign=signing)
+            tx = await Transaction.create(pre, outs, funding_of(d), change_acc, sign=signing)
         except InsufficientFundsError:
             res['status'] = 'failed'
             return
@@ -191,8 +206,21 @@ async def run_concurrent(world, case):
                 res['status'] = 'EXC broadcast did not fail'
             except ConnectionError:
                 res['status'] = 'released'
+        elif act == 'broadcast_cancel':
+            # the server never answers; the caller gives up (wait_for timeout / task.cancel): the transaction was never
+            # sent, it is abandoned
+            pending = asyncio.ensure_future(ledger.broadcast_or_release(tx))
+            for _ in range(d.get('cancel_after', 2)):
+                await asyncio.sleep(0)
+            pending.cancel()
+            try:
+                await pending
+                res['status'] = 'EXC cancelled broadcast returned'
+            except asyncio.CancelledError:
+                res['status'] = 'released'
         elif act == 'broadcast':
-            # what the ledger records once the network has accepted the transaction: its inputs are spent
+            # accepted by the network through the real broadcast_or_release; what the ledger then records: inputs spent
+            await ledger.broadcast_or_release(tx)
             await ins.pause()
             tok = op_label.set(('spend', b))
             try:
@@ -208,7 +236,31 @@ async def run_concurrent(world, case):
             res['status'] = 'finish'        # still in flight when the case ends
 
     ins.install()
-    ledger.network = FailingNetwork()
+    ledger.network = FakeNetwork({b: {'broadcast_fail': 'reject', 'broadcast_cancel': 'hang'}.get(d['action'], 'accept')
+                                  for b, d in enumerate(case['builds'])})
+
+    synced = set()
+
+    async def sync(k, sd):
+        # the wallet sync stores a funding transaction again for each of its addresses (it does when the transaction
+        # moves from the mempool into a block); nothing about reservations may change
+        for _ in range(sd.get('delay', 0)):
+            await asyncio.sleep(0)
+        if sd.get('after') is not None:
+            # wait until that build holds its inputs (its transaction has been returned)
+            while 'tx' not in results.get(sd['after'], {}) and 'status' not in results.get(sd['after'], {}):
+                await asyncio.sleep(0.001)
+        for ti in sd['txs']:
+            ftx, hashes = world.funding_txs[ti]
+            for h in hashes:
+                tok = op_label.set(('sync', 'sync%d' % k))
+                try:
+                    await ledger.db.save_transaction_io(ftx, ledger.hash160_to_address(h), h, '')
+                finally:
+                    op_label.reset(tok)
+                for _ in range(sd.get('gap', 0)):
+                    await asyncio.sleep(0)
+        synced.add(k)
     if case.get('locked'):
         for acc in funding:
             acc.encrypt('password')      # wallet locked: funding works, signing cannot
@@ -219,6 +271,7 @@ async def run_concurrent(world, case):
             except Exception as e:  # noqa  (reported by the monitor as a failure of that build)
                 results.setdefault(b, {})['status'] = 'EXC ' + type(e).__name__ + ':' + str(e)[:80]
         tasks = [asyncio.ensure_future(guarded(b, case['builds'][b])) for b in case['start_order']]
+        tasks += [asyncio.ensure_future(sync(k, sd)) for k, sd in enumerate(case.get('syncs', []))]
         await asyncio.gather(*tasks)
     finally:
         ins.restore()
@@ -235,7 +288,11 @@ async def run_concurrent(world, case):
     shuffles_by = {}
     for a, b, who in c03.RecordingRandom.log:
         shuffles_by.setdefault(who, []).append([[rid_of[i] for i in a], [rid_of[i] for i in b]])
-    obs = {'rows_before': rows_before, 'rows_after': rows_after, 'events': events, 'results': results,
+    orders = {}
+    for b, d in enumerate(case['builds']):
+        if 'funding' in d:
+            orders[b] = [r['rid'] for r in c03.spendable_rows(await world.rows(funding_of(d)))]
+    obs = {'rows_before': rows_before, 'rows_after': rows_after, 'events': events, 'results': results, 'orders': orders,
            'asked': ins.asked, 'shuffles': shuffles, 'shuffles_by': shuffles_by, 'rid_of': rid_of,
            'unsignable': [r['rid'] for r in await world.rows([world.accounts[c03.GHOST]])]}
     impl = {'builds': [], 'reserved': reserved_after,
@@ -260,8 +317,13 @@ def schedule_of(events, n):
     locked = {b for kind, b, _ in events if kind == 'lock'}
     holding = set()
     for kind, b, _ in events:
+        if kind == 'sync':
+            sched.append(n)       # Model/C14.step ignores indices that are no build: a no-op on the wallet and on reserved
+            continue
         if b is None or b not in locked:
             continue
+        if kind == 'read' and in_round.get(b, 0) >= 3:
+            continue      # the second account's rows of the same Read
         if kind == 'reserve' and b not in holding:
             # create's first statement reserves the pre-chosen inputs; in these cases they are never rows of the
             # wallet, so it changes nothing and is not a step of the model
@@ -294,7 +356,8 @@ def model_run(model, case, obs, sched, upto=None):
     builds = []
     for b, d in enumerate(case['builds']):
         builds.append({'strategy': case['strategy'], 'amounts': obs['asked'].get(b, []),
-                       'broadcast': d['action'] == 'broadcast', 'sign': bool(d.get('sign'))})
+                       'broadcast': d['action'] == 'broadcast', 'sign': bool(d.get('sign')),
+                       'order': obs['orders'].get(b)})
     return model.call('run', fpb=case['fpb'], shuffles=obs['shuffles'], builds=builds,
                       sched=sched if upto is None else sched[:upto], wallet=c03.model_wallet(obs['rows_before']),
                       use_lock=True, locked=bool(case.get('locked')), unsignable=obs['unsignable'])
@@ -317,6 +380,15 @@ def monitor(case, impl, obs):
         if snap is None or b is None:
             continue
         cur = {rid_of[t] for t in snap}
+        if kind == 'sync':
+            if cur != prev:
+                holders = {x: sorted(h & (prev - cur)) for x, h in held.items() if h & (prev - cur)}
+                return ('re-saving the funding transaction changed is_reserved: %s became available while held by %s '
+                        '(an output must stay unavailable until its holder is broadcast or abandoned)' % (
+                            sorted(prev - cur), holders))
+            continue
+        if not isinstance(b, int):
+            continue
         if kind in ('reserve', 'sqlite'):
             if prev - cur:
                 return 'a reservation by build %d cleared the flag of %s' % (b, sorted(prev - cur))
@@ -350,6 +422,11 @@ def monitor(case, impl, obs):
         for a in took:
             if a not in by_rid or by_rid[a]['spent'] or by_rid[a]['is_reserved']:
                 return 'build %d spends %s which is not an unspent unreserved output of the wallet' % (b, a)
+        if set(took) - got[b]:
+            stale = set(took) - got[b]
+            others = sorted(b2 for b2 in range(n) if b2 != b and stale & set(impl['builds'][b2]['took']))
+            return ('builds %d and %s both spend outpoint(s) %s: build %d selected an output that was already reserved '
+                    '(no output may be selected by more than one build)' % (b, others, sorted(stale), b))
         if set(took) != got[b]:
             return ('build %d uses %s but the outputs it newly reserved are %s: it selected an output that was '
                     'not available' % (b, sorted(took), sorted(got[b])))
@@ -386,15 +463,23 @@ def linearize(c03_model, case, impl, obs):
     wallet = c03.model_wallet(obs['rows_before'])
     got, want = {}, {}
     taken = {}
+    started = set()
     for kind, b, _ in obs['events']:
-        if b is None:
+        if not isinstance(b, int):
+            continue
+        if kind == 'read' and b in started:
             continue
         if kind in ('read', 'sqlite'):
+            started.add(b)
             # the moment the build reads the wallet inside its critical section
             d = case['builds'][b]
             r = obs['results'][b]
+            view = wallet
+            if b in obs['orders']:
+                pos = {u: i for i, u in enumerate(obs['orders'][b])}
+                view = sorted(wallet, key=lambda e: pos.get(e[0][0], len(pos)))
             req = dict(fpb=case['fpb'], fpnc=case['fpnc'], strategy=case['strategy'], shuffles=obs['shuffles_by'].get(b, []),
-                       pre=r['pre_desc'], outs=[c03.out_desc(o, None) for o in r['outs']], wallet=wallet,
+                       pre=r['pre_desc'], outs=[c03.out_desc(o, None) for o in r['outs']], wallet=view,
                        sign=bool(d.get('sign')), locked=bool(case.get('locked')), unsignable=obs['unsignable'])
             try:
                 m = c03_model.call('create', **req)
@@ -474,10 +559,32 @@ def gen_case(rng, tier):
                        'delay': rng.choice([0, 0, 0, 1, 2, 5]),
                        'hold_yields': rng.choice([0, 0, 1, 3, 10, 30]),
                        'yields': [rng.choice([0, 0, 0, 1, 1, 2, 3, 7]) for _ in range(40)]})
+    two = fund == 0 and not locked and rng.random() < 0.18
+    syncs = []
+    if two:
+        # the same two accounts, listed in a different order by different callers; everything stays in flight so
+        # that the rows read under the lock form one snapshot
+        for t in txs:
+            for o in t['outs']:
+                o['acct'] = rng.randrange(2)
+        for d in builds:
+            d['funding'] = rng.choice([[0, 1], [1, 0]])
+            d['action'] = 'hold'
+            d['pre'] = []
+            if not d['outs']:
+                d['outs'] = [{'kind': 'pay', 'amount': max(1, total // rng.choice([2, 3, 5, 8]))}]
+    elif rng.random() < 0.4:
+        for _ in range(rng.choice([1, 1, 2])):
+            syncs.append({'delay': rng.choice([0, 3, 10, 25, 60]), 'gap': rng.choice([0, 1, 4]),
+                          'txs': sorted(rng.sample(range(len(txs)), rng.randrange(1, len(txs) + 1)))})
+    for d in builds:
+        if d['action'] == 'broadcast_fail' and rng.random() < 0.5:
+            d['action'] = 'broadcast_cancel'
+            d['cancel_after'] = rng.choice([1, 2, 5])
     order = list(range(n))
     rng.shuffle(order)
-    return {'kind': 'concurrent', 'fpb': fpb, 'fpnc': 0, 'strategy': strategy, 'funding': [fund], 'change': fund, 'txs': txs,
-            'locked': locked,
+    return {'kind': 'concurrent', 'fpb': fpb, 'fpnc': 0, 'strategy': strategy, 'funding': [0, 1] if two else [fund],
+            'change': fund, 'txs': txs, 'locked': locked, 'syncs': syncs,
             'reserved': [], 'builds': builds, 'start_order': order, 'seed': rng.getrandbits(32)}
 
 
@@ -490,6 +597,11 @@ async def check_concurrent(run, world, model, case, kind, c03_model=None):
     run.count('strategy:%s' % case['strategy'])
     if case.get('locked'):
         run.count('locked-account')
+    if case.get('syncs'):
+        run.count('sync re-saves funding transactions', sum(1 for k, b, _ in obs['events'] if k == 'sync'))
+    if len(case['funding']) > 1:
+        run.count('two accounts listed in different orders')
+    run.count('broadcast cancelled while pending', sum(1 for d in case['builds'] if d['action'] == 'broadcast_cancel'))
     if c03.GHOST in case['funding']:
         run.count('keys-not-found account')
     run.count('builds failing while signing', sum(1 for r in obs['results'].values() if r.get('signfail')))
@@ -508,7 +620,8 @@ async def check_concurrent(run, world, model, case, kind, c03_model=None):
         run.count('release-or-spend-inside-another-critical-section')
     bad = monitor(case, impl, obs)
     if bad:
-        run.violation(case, bad, signature={'case': vlib.canon(case)})
+        run.violation(dict(case, sched=sched, events=[[k, b] for k, b, _ in obs['events']]), bad,
+                      signature={'case': vlib.canon(case)})
         return
     try:
         mod = model_run(model, case, obs, sched)
@@ -598,6 +711,7 @@ def replay(run, case):
     case = dict(case)
     case.pop('origin', None)
     case.pop('sched', None)
+    case.pop('events', None)
     loop = asyncio.new_event_loop()
     asyncio.set_event_loop(loop)
     try:
